@@ -6,7 +6,7 @@ from ..core import hx, lst
 from ..ref import P, L, to32
 from . import c01
 
-REQUIRED = ['boundary:formula', 'boundary:public', 'boundary:field', 'stream']
+REQUIRED = ['boundary:formula', 'boundary:public', 'boundary:field', 'boundary:vec', 'stream']
 
 SITE_NAMES = {0: 'avx2.mul.lhs', 1: 'avx2.mul.rhs', 2: 'avx2.square', 3: 'avx2.negate_lazy', 4: 'avx2.diff_sum', 5: 'avx2.neg',
               6: 'avx2.mul_consts', 7: 'avx2.reduce', 8: 'ifma.mul.lhs', 9: 'ifma.mul.rhs', 10: 'ifma.square',
@@ -80,6 +80,46 @@ def make_boundary(seed, size, impl='u64'):
     return ctx
 
 
+def make_boundary_vec(seed, size, which='avx2'):
+    """vector point formulas started from lanes that are the raw outputs of multiplications / squarings of
+    all-max reduced operands (the largest lanes a producer can emit), not from valid points: the formulas are
+    polynomial maps, the bound monitor and the overflow-checked build are the oracle"""
+    from .. import vecmodel as vm
+    from . import c01v
+    ctx = core.Ctx(seed, prefix='u%d_' % (seed % 100000))
+    model = vm.Avx2 if which == 'avx2' else vm.Ifma
+    g = c01v.VGen(ctx, model)
+    op, pt = 'vec.%s.op' % which, 'vec.%s.pt' % which
+    rng = ctx.rng
+    for i in range(size):
+        ctx.block()
+        mode = 'max' if i % 2 == 0 else None
+        pre = model.PRE['mul']
+        a, _ = g.operand(pre[0], mode)
+        b, _ = g.operand(pre[1], mode)
+        m1 = ctx.add(op, 'mul', vm.tok(a), vm.tok(b), cls='boundary:vec', info='repr')
+        x, _ = g.operand(model.PRE['square'][0], mode)
+        s1 = ctx.add(op, 'square', vm.tok(x), cls='boundary:vec', info='repr')
+        if which == 'ifma':
+            # IFMA double() negates a raw squaring output lazily: start it from the largest squaring output
+            ctx.add(op, 'negate_lazy', ctx.ref(s1, 0), cls='boundary:vec', info='repr')
+            ctx.add(op, 'negate_lazy', ctx.ref(m1, 0), cls='boundary:vec', info='repr')
+        for src in (m1, s1):
+            e = ctx.ref(src, 0)
+            d = ctx.add(pt, 'ext_double', e, cls='boundary:vec', info='repr')
+            c = ctx.add(pt, 'cached_from_ext', e, cls='boundary:vec', info='repr')
+            n = ctx.add(pt, 'cached_neg', ctx.ref(c, 0), cls='boundary:vec', info='repr')
+            s = ctx.add(pt, 'ext_add_cached', e, ctx.ref(c, 0), cls='boundary:vec', info='repr')
+            # a CachedPoint must not be negated twice (documented): subtract the un-negated one, add the negated one
+            s2 = ctx.add(pt, 'ext_sub_cached', ctx.ref(d, 0), ctx.ref(c, 0), cls='boundary:vec', info='repr')
+            ctx.add(pt, 'ext_add_cached', ctx.ref(d, 0), ctx.ref(n, 0), cls='boundary:vec', info='repr')
+            ctx.add(pt, 'ext_double', ctx.ref(s2, 0), cls='boundary:vec', info='repr')
+            ctx.add(pt, 'ext_pow2', ctx.ref(s, 0), '#4', cls='boundary:vec', info='repr')
+            ctx.add(pt, 'ext_to_edwards', ctx.ref(s2, 0), cls='boundary:vec', info='repr')
+    ctx.block()
+    return ctx
+
+
 def task_pair(prop, seed, size, cfgbins, mod=None, fn='make', kw=None):
     """run a generator on (release, checked) builds of one configuration: panics and rel/chk differences"""
     m = importlib.import_module(mod)
@@ -131,7 +171,7 @@ def task_bounds(prop, seed, size, cfgbins, mod=None, fn='make', kw=None):
         ctx.add('bounds.report', expect=rep, cls='bounds-report', info='repr')
         res = core.run_and_judge(prop, ctx, [cb], compare=False)
         res['violations'] = [v for v in res['violations'] if 'bounds.report' in v.req or str(v.why).startswith('panic')]
-        key = 'bound_monitor_hook_boundary_workloads' if mod.endswith(('c01v', 'c11')) else 'bound_monitor_public_api_and_point_formula_workloads'
+        key = 'bound_monitor_hook_boundary_workloads' if (mod.endswith('c01v') or fn == 'make_boundary') else ('bound_monitor_vector_formula_boundary_starts' if fn == 'make_boundary_vec' else 'bound_monitor_public_api_and_point_formula_workloads')
         res.setdefault('extra', {})[key] = marks
         out.append(res)
     return core.merge(out)
@@ -191,7 +231,8 @@ def run(prop, tier, seed, t0):
                        ('vlib.props.c13', 'make', {'sizes': (3, 96, 250), 'reps': 1}, 0), ('vlib.props.c03', 'make', {}, 60 * mult),
                        ('vlib.props.c11', 'make_boundary', {'impl': 'u64'}, 30 * mult)]
             which = 'ifma' if frc == 3 else 'avx2'
-            streams += [('vlib.props.c03v', 'make', {'which': which}, 24 * mult), ('vlib.props.c01v', 'make', {'which': which}, 30 * mult)]
+            streams += [('vlib.props.c03v', 'make', {'which': which}, 24 * mult), ('vlib.props.c01v', 'make', {'which': which}, 30 * mult),
+                        ('vlib.props.c11', 'make_boundary_vec', {'which': which}, 40 * mult)]
             for mod, fn, kw, size in streams:
                 k += 1
                 tasks.append(('vlib.props.c11', 'task_bounds', prop, seed * 1000 + k, size, cb, {'mod': mod, 'fn': fn, 'kw': kw}))
